@@ -399,6 +399,17 @@ func (a Assignment) Build() (interface{}, []enum.Slot) {
 	return obj, slots
 }
 
+// FillTypical sets every reflected slot of an arbitrary object to its typical value.
+func FillTypical(obj interface{}) {
+	f := &enum.Filler{Hints: hints}
+	f.Fill(obj, func(slot string, n int) int {
+		if n > 1 {
+			return 1
+		}
+		return 0
+	})
+}
+
 // Enumerate calls f for every assignment of t with at most k deviations from each of the two bases.
 func Enumerate(t *Type, k int, f func(a Assignment)) {
 	for base := 0; base <= 1; base++ {
